@@ -383,6 +383,21 @@ func (fc *FnCtx) transIdent(env *Env, name string) (Val, types.Type) {
 			return v.v, v.t
 		}
 	}
+	// captured variables of a closure under verification (by name; current contents of the cell)
+	if env.calleeFn == nil {
+		for _, fv := range fc.fn.FreeVars {
+			if fv.Name() == name {
+				if r, ok := fc.regs[fv].(*Term); ok {
+					et := fv.Type().(*types.Pointer).Elem()
+					if _, isS := isStructType(et); isS {
+						return r, fv.Type()
+					}
+					a := &Addr{Kind: aHeap, Ref: r, Key: fc.cellKey(et), RootType: et, Type: et}
+					return fc.loadRoot(a, env.st), et
+				}
+			}
+		}
+	}
 	// package level
 	if env.pkg != nil {
 		if obj := env.pkg.Scope().Lookup(name); obj != nil {
